@@ -450,6 +450,8 @@ def radshock_params(draw, kind):
     """kind in ED, nED, ie"""
     p = {}
     M0 = draw(st.sampled_from([1.2, 1.05, 1.4, 2.0, 3.0])) if kind != 'ie' else draw(st.sampled_from([1.2, 1.4, 2.0]))
+    if kind == 'Sn' and M0 == 3.0:
+        M0 = 1.4          # (the S_n iteration takes 3 min per construction at M0 = 2 and more than 10 min at M0 = 3: not explored)
     p['M0'] = M0
     if draw(st.booleans()):
         p['Tref'] = draw(st.sampled_from([100.0, 50.0, 200.0, 150.0]))
@@ -459,7 +461,7 @@ def radshock_params(draw, kind):
         p['gamma'] = draw(st.sampled_from([5.0 / 3.0, 1.4, 1.5]))
     if draw(st.booleans()) and kind != 'ie':
         p['Cv'] = 1.4472799784454e12 * draw(st.sampled_from([1.0, 0.5, 2.0]))
-    if kind in ('nED', 'Sn') and draw(st.integers(0, 2)) == 0:
+    if kind == 'nED' and draw(st.integers(0, 2)) == 0:
         p['sigS'] = draw(st.sampled_from([100.0, 300.0, 577.35]))      # scattering: total cross section != absorption cross section
     return p
 
